@@ -93,8 +93,11 @@ def sec_get_result(rep):
                         orders = {key: (sy.U("v", on.kind, str(key)), sy.U("e", on.kind, str(key))) for key in keysets[i]}
                         return _FakeSF(ESFResult(k["x"], k["Q2"], 4, orders))
 
-                    xs = exs.EvaluatedCrossSection(kin, H.obs_name(kind, flavor), cfg, get_esf)
-                    sigma = xs.get_result()
+                    from pvc.stubs import NumpyShim, rebind as _rebind
+
+                    with _rebind(*([] if sy.is_numeric or not hasattr(exs, "np") else [(exs, "np", NumpyShim())])):
+                        xs = exs.EvaluatedCrossSection(kin, H.obs_name(kind, flavor), cfg, get_esf)
+                        sigma = xs.get_result()
                     if kind == "g5":
                         c = spec.coeffs_polarized(kind)
                     else:
